@@ -356,3 +356,70 @@ def finish(prop, tier, level, coverage, t0, violations, assumptions, broken=None
             rc = 2
     write_evidence(prop, tier, level, coverage, time.time() - t0, len(unknown), assumptions)
     return rc
+
+
+# ---------------------------------------------------------------- reference-model validation
+
+def validate_models(which=("refurl", "refidna")):
+    """Runs the models' self-tests against the WPT/Unicode vectors shipped in /repo/tests/wpt.
+    Returns (ok, info). Cached per (model sources, vectors) hash under build/models/.
+    A model that fails a vector must never judge ada: callers then exit 0 with exhaustive:false."""
+    import re
+    srcs = [os.path.join(VERIF, "ref", f) for f in sorted(os.listdir(os.path.join(VERIF, "ref")))]
+    srcs += [os.path.join(VERIF, "tools", f) for f in ("wpt2lines.py", "idna2lines.py")]
+    wpt = os.path.join(REPO, "tests", "wpt")
+    vec = [os.path.join(wpt, f) for f in sorted(os.listdir(wpt)) if f.endswith(".json")]
+    datad = os.path.join(VERIF, "data", "ucd17")
+    data = [os.path.join(datad, f) for f in sorted(os.listdir(datad))]
+    hh = _files_hash(srcs + vec + data)
+    d = os.path.join(BUILD, "models", hh)
+    res = os.path.join(d, "result.json")
+    with _Lock(os.path.join(BUILD, "models", ".lock")):
+        if os.path.exists(res):
+            with open(res) as fh:
+                info = json.load(fh)
+            return info.get("ok", False), info
+        os.makedirs(d, exist_ok=True)
+        info = {"ok": True}
+        ref = os.path.join(VERIF, "ref")
+        # refurl
+        rc, o, _ = run(["g++", "-std=c++20", "-O2", "-I" + ref, os.path.join(ref, "refurl_selftest.cpp"),
+                        os.path.join(ref, "refurl.cpp"), os.path.join(ref, "refidna.cpp"), "-o", os.path.join(d, "refurl_selftest")])
+        if rc != 0:
+            info = {"ok": False, "error": "refurl_selftest does not compile: " + o[-1500:]}
+        else:
+            lines = os.path.join(d, "lines")
+            os.makedirs(lines, exist_ok=True)
+            rc1, o1, _ = run(["/usr/bin/python3", os.path.join(VERIF, "tools", "wpt2lines.py"), wpt, lines], cwd="/")
+            env = dict(os.environ, REFIDNA_DATA=datad)
+            rc2, o2, _ = run([os.path.join(d, "refurl_selftest"), lines], env=env, cwd="/")
+            info["refurl_rc"] = rc2
+            info["refurl_output"] = o2[-2500:]
+            passed = 0
+            for m in re.finditer(r"^\S+\.lines\s+(\d+)\s+(\d+)\s+(\d+)", o2, re.M):
+                passed += int(m.group(2))
+            info["refurl_vectors_passed"] = passed
+            if rc1 != 0 or rc2 != 0:
+                info["ok"] = False
+                info["error"] = "refurl selftest failed"
+        # refidna
+        rc, o, _ = run(["g++", "-std=c++20", "-O2", os.path.join(ref, "refidna_selftest.cpp"), os.path.join(ref, "refidna.cpp"),
+                        "-o", os.path.join(d, "refidna_selftest")])
+        if rc != 0:
+            info["ok"] = False
+            info["error"] = "refidna_selftest does not compile: " + o[-1500:]
+        else:
+            rc3, o3, _ = run([os.path.join(d, "refidna_selftest"), "--data", datad, "--tools", os.path.join(VERIF, "tools"),
+                              "--python", "/usr/bin/python3"], cwd="/")
+            info["refidna_rc"] = rc3
+            info["refidna_output"] = o3[-6000:]
+            passed = 0
+            for m in re.finditer(r"(\d+) vectors, (\d+) pass", o3):
+                passed += int(m.group(2))
+            info["refidna_vectors_passed"] = passed
+            if rc3 != 0:
+                info["ok"] = False
+                info["error"] = info.get("error", "") + " refidna selftest failed"
+        with open(res, "w") as fh:
+            json.dump(info, fh, indent=1)
+        return info["ok"], info
